@@ -6,6 +6,7 @@ package main
 //     altered tokens, against the issuer and against other principals.
 
 import (
+	"sync"
 	"reflect"
 	"encoding/base64"
 	"fmt"
@@ -563,6 +564,16 @@ func c07Alterations() []c07Alteration {
 			return true
 		}},
 		{"version", func(m *udm.UCANModel, o *Prin) bool { m.V = "0.9.2"; return true }},
+		// the version blanked, cut or extended (an accessor that "defaults" the version would hide these)
+		{"version-empty", func(m *udm.UCANModel, o *Prin) bool { m.V = ""; return true }},
+		{"version-prefix", func(m *udm.UCANModel, o *Prin) bool {
+			if len(m.V) < 2 {
+				return false
+			}
+			m.V = m.V[:len(m.V)-2]
+			return true
+		}},
+		{"version-suffix", func(m *udm.UCANModel, o *Prin) bool { m.V = m.V + ".0"; return true }},
 		{"sig-flip", func(m *udm.UCANModel, o *Prin) bool {
 			s := append([]byte{}, m.S...)
 			s[len(s)-1] ^= 1
@@ -976,6 +987,47 @@ func init() {
 					direct = append(direct, map[string]any{"token": -1, "label": "RSA issuer " + iss.Name, "key": "verifies-after-altering:rsa-sig-leading-zero-stripped",
 						"what": "token still verifies after stripping the leading zero octet of its RSA signature", "root_hex": fmt.Sprintf("%x", ad.Root().Bytes())})
 				}
+			}
+		}
+		// ---- ONE signer used from many goroutines at once (a worker pool issuing with the service key): every token
+		// verifies — per-signer scratch state (a shared hasher, a reused buffer) shows only here
+		nconc := 0
+		for _, iss := range []*Prin{keys[0], keys[2]} {
+			var wg sync.WaitGroup
+			var cmu sync.Mutex
+			bad, panics := 0, 0
+			for g := 0; g < 16; g++ {
+				wg.Add(1)
+				go func(g int) {
+					defer wg.Done()
+					for k := 0; k < 150; k++ {
+						var d delegation.Delegation
+						var err error
+						okv := false
+						p := recovered(func() {
+							d, err = delegation.Delegate(iss.Signer, keys[1].DID, []ucan.Capability[ucan.CaveatBuilder]{
+								ucan.NewCapability[ucan.CaveatBuilder]("store/add", iss.DID.String(), Cav{Max: i64(int64(g*1000 + k))})},
+								delegation.WithNoExpiration(), delegation.WithNonce(fmt.Sprint("conc", g, "-", k)))
+							if err == nil && d != nil {
+								okv, _ = ucan.VerifySignature(d.Data(), iss.Real)
+							}
+						})
+						cmu.Lock()
+						nconc++
+						if p != nil {
+							panics++
+						} else if !okv {
+							bad++
+						}
+						cmu.Unlock()
+					}
+				}(g)
+			}
+			wg.Wait()
+			nverify += 2400
+			if bad+panics > 0 {
+				direct = append(direct, map[string]any{"token": -1, "label": "concurrent issuing, signer " + iss.Name, "key": "issued-concurrently-does-not-verify",
+					"what": fmt.Sprintf("%d of 2400 tokens issued with ONE %s signer from 16 goroutines at once do not verify against it (%d more panicked while issuing)", bad, iss.Name, panics)})
 			}
 		}
 		covDirect, covRuns := covC07(o.seed) // gen_cov.go: default expiration, facts, reserved-form facts, failing builders
